@@ -42,7 +42,18 @@ PAYLOADS = {
     'P1': _graphml(_payload_graph(['1', '2'], ['a', 'b'])),
     'P2': json.dumps(nx.readwrite.node_link_data(_payload_graph(['a', 'b', 'c'], ['a', 'b', 'c'], extra={'Q': 'p2'}))),
 }
-DIRECT = {g: _graphml(_payload_graph(['1', '2'], ['a', 'b'], gid=g, extra={'D': 'direct'})) for g in GIDS}
+# (more nodes than P1/P2: a direct re-import over an id whose allocator is older must move the allocator past them)
+DIRECT = {g: _graphml(_payload_graph(['1', '2', '3', '4'], ['a', 'b', 'c', 'd'], gid=g, extra={'D': 'direct'})) for g in GIDS}
+
+
+def _bad_payload(gid):
+    """what an export of graph `gid` looks like (its nodes carry GraphID=gid) with the NodeID of a non-first node lost"""
+    g = _payload_graph(['1', '2', '3'], ['a', 'b', 'c'], gid=gid, extra={'B': 'bad'})
+    del g.nodes['2']['NodeID']
+    return _graphml(g)
+
+
+BAD = {g: _bad_payload(g) for g in GIDS}
 
 
 def _payload_canon(text, is_json):
@@ -119,7 +130,7 @@ class StoreModel(Model):
         else:
             st = world.disjoint_store()
             # empty placeholder entries are part of the state: the per-graph store treats them as 'present'
-            layout = tuple(sorted((k, len(g.nodes) == 0, st.graph_node_ids[k] > max(g.nodes, default=0))
+            layout = tuple(sorted((k, len(g.nodes) == 0, dict.get(st.graph_node_ids, k, 1) > max(g.nodes, default=0))
                                   for k, g in st.graphs.items()))
         return (tuple(sorted(obs.items(), key=repr)), layout)
 
@@ -130,6 +141,8 @@ class StoreModel(Model):
             ev.append(('import', g, 'P1'))
             ev.append(('import', g, 'P2'))
             ev.append(('import_direct', g))
+            # an import that must fail (a node without NodeID) of a document whose nodes name ANOTHER graph as theirs
+            ev.append(('import_bad', g, GIDS[(GIDS.index(g) + 1) % len(GIDS)]))
             for i in ('a', 'c'):
                 ev.append(('add_node', g, i))
             for i in ('a', 'b'):
@@ -156,6 +169,8 @@ class StoreModel(Model):
                 self.imp().import_graph_from_string(graph_string=PAYLOADS[ev[2]], graph_id=ev[1])
             elif k == 'import_direct':
                 self.imp().import_graph_from_string_direct(graph_string=DIRECT[ev[1]])
+            elif k == 'import_bad':
+                self.imp().import_graph_from_string(graph_string=BAD[ev[2]], graph_id=ev[1])
             elif k == 'add_node':
                 self.graph(ev[1]).add_node(node_id=ev[2], label='NetworkNode', props={'Name': 'n' + ev[2], 'Type': 'VM'})
             elif k == 'delete_node':
@@ -218,11 +233,13 @@ class StoreModel(Model):
                 v.append((f'import-content/{self.flavour}/{k}',
                           f'[{self.flavour}] {ev}: graph {target} holds {_brief(post.get(target))}, expected '
                           f'{"the imported payload" if allowed == [want] else "the live graph kept (documented skip)"}'))
+        if k == 'import_bad' and outcome[0] == 'ok' and (self.flavour == 'shared' or target not in pre):   # (per-graph store: documented skip)
+            v.append((f'import-accepts-node-without-id/{self.flavour}', f'[{self.flavour}] {ev} returned normally'))
         # no two stored nodes share an internal identity: a successful add_node adds exactly one node to its graph
         if k == 'add_node' and outcome[0] == 'ok':
-            before = sorted(n[0][1] for n in pre.get(target, ((), ()))[0])
-            after = sorted(n[0][1] for n in post.get(target, ((), ()))[0])
-            if after != sorted(before + [ev[2]]):
+            before = sorted((n[0][1] for n in pre.get(target, ((), ()))[0]), key=repr)
+            after = sorted((n[0][1] for n in post.get(target, ((), ()))[0]), key=repr)
+            if after != sorted(before + [ev[2]], key=repr):
                 v.append((f'identity/{self.flavour}/add_node-overwrote',
                           f'[{self.flavour}] {ev}: graph {target} held NodeIDs {before}, now {after}'))
         # "the same content as its source under the NEW id": judged only when the target id held no graph before
@@ -256,9 +273,9 @@ class StoreModel(Model):
             if gid not in raw:
                 continue     # reading an absent id is itself an operation on the per-graph store (creates a placeholder)
             g = self.graph(gid)
-            want = sorted(d.get('NodeID') for _, d in raw[gid].nodes(data=True))
+            want = sorted((d.get('NodeID') for _, d in raw[gid].nodes(data=True)), key=repr)
             try:
-                got = sorted(g.list_all_node_ids())
+                got = sorted((g.list_all_node_ids()), key=repr)
             except Exception:
                 got = None
             if got != want:
@@ -288,9 +305,9 @@ class StoreModel(Model):
             out = self.apply(probe)
             post = self.observe()
             if probe[0] == 'add_node' and probe[1] != 'PROBE' and out[0] == 'ok':
-                before = sorted(n[0][1] for n in pre.get(probe[1], ((), ()))[0])
-                after = sorted(n[0][1] for n in post.get(probe[1], ((), ()))[0])
-                if after != sorted(before + [probe[2]]):
+                before = sorted((n[0][1] for n in pre.get(probe[1], ((), ()))[0]), key=repr)
+                after = sorted((n[0][1] for n in post.get(probe[1], ((), ()))[0]), key=repr)
+                if after != sorted(before + [probe[2]], key=repr):
                     v.append((f'identity/{fl}/probe-add_node-overwrote',
                               f'[{fl}] adding a node to {probe[1]} (NodeIDs {before}) left {after}'))
             for gid in pre:
